@@ -301,7 +301,9 @@ def run_property(pid, rules_mod, repo="/repo", tier="quick", configs=None, seed=
             "seed": seed,
             "level": "other",
             "coverage": {
-                "explanation": meta["explanation"],
+                "explanation": (meta["explanation"] + " On every function these rules inspected, six generic lints with positive witnesses (witness/selfcheck.c) also run: narrowing stores, "
+                                "no-op atomic updates, errno consulted on the success side, locks held at return / released without being taken, use of undefined values, and NDEBUG "
+                                "invariance of external calls and writes (a second build of the tree with -DNDEBUG).")[:2400],
                 "obligations": len(all_results),
                 "discharged": npass,
                 "evaluations": max(1, len(all_results)),
